@@ -23,13 +23,13 @@ LEVEL = "model_checking"
 
 def run(ctx):
     cfg = "FileReader_quick.cfg" if ctx.tier == "quick" else "FileReader_thorough.cfg"
-    res = ctx.tlc_expect_ok("FileReader", cfg, timeout=1500, deadlock=False)
+    res = ctx.tlc_expect_ok("FileReader", cfg, timeout=4500, deadlock=False)
     cases = res.printed
-    mm = ctx.tlc("FileReader", "FileReader_mut_maint.cfg", timeout=600, deadlock=False, name="FileReader/mutant (maintenance forgets the held-back tail)")
+    mm = ctx.tlc("FileReader", "FileReader_mut_maint.cfg", timeout=1800, deadlock=False, name="FileReader/mutant (maintenance forgets the held-back tail)")
     if mm.ok:
         raise vlib.Infra("spec mutant M_MaintenanceKeepsTail of FileReader is not rejected")
-    ctx.tlc_expect_ok("WorkerTails", "WorkerTails_ok.cfg", timeout=300, deadlock=False, name="WorkerTails/faithful")
-    mut = ctx.tlc("WorkerTails", "WorkerTails_mut.cfg", timeout=300, deadlock=False, name="WorkerTails/mutant (tail aliases the worker's buffer)")
+    ctx.tlc_expect_ok("WorkerTails", "WorkerTails_ok.cfg", timeout=900, deadlock=False, name="WorkerTails/faithful")
+    mut = ctx.tlc("WorkerTails", "WorkerTails_mut.cfg", timeout=900, deadlock=False, name="WorkerTails/mutant (tail aliases the worker's buffer)")
     if mut.ok or mut.violated != "TailsIntact":
         raise vlib.Infra("spec mutant M_TailCopied of WorkerTails is not rejected (violated=%s)" % mut.violated)
     if len(cases) < 1000:
@@ -51,7 +51,7 @@ def run(ctx):
     out = os.path.join(ctx.scratch, "c06_out.json")
     binary = ctx.go_test_build("plugin/input/file")
     rc, txt = ctx.run_bin(binary, "^TestVerifC06$", env={"VERIF_CASES": path, "VERIF_OUT": out, "VERIF_SEED": str(ctx.seed),
-                                                              "VERIF_C06_GROUPS": "150000" if ctx.tier == "thorough" else "10000"}, timeout=3000)
+                                                              "VERIF_C06_GROUPS": "150000" if ctx.tier == "thorough" else "10000"}, timeout=9000)
     if rc != 0 or not os.path.exists(out):
         raise vlib.Infra("C06 harness failed rc=%s:\n%s" % (rc, txt[-3000:]))
     r = json.load(open(out))
@@ -86,7 +86,7 @@ def run(ctx):
             for c in pool:
                 f.write(json.dumps(c) + "\n")
         out2 = os.path.join(ctx.scratch, "c06_e2e_out.json")
-        rc, txt = ctx.run_bin(binary, "^TestVerifC06E2E$", env={"VERIF_CASES": p2, "VERIF_OUT": out2}, timeout=3000)
+        rc, txt = ctx.run_bin(binary, "^TestVerifC06E2E$", env={"VERIF_CASES": p2, "VERIF_OUT": out2}, timeout=9000)
         if rc != 0 or not os.path.exists(out2):
             i = txt.find("panic:")
             j = txt.find("fatal error:")
@@ -112,7 +112,7 @@ def run(ctx):
             for c in lzpool:
                 f.write(json.dumps(c) + "\n")
         out3 = os.path.join(ctx.scratch, "c06_lz4_out.json")
-        rc, txt = ctx.run_bin(binary, "^TestVerifC06Lz4$", env={"VERIF_CASES": p3, "VERIF_OUT": out3}, timeout=3000)
+        rc, txt = ctx.run_bin(binary, "^TestVerifC06Lz4$", env={"VERIF_CASES": p3, "VERIF_OUT": out3}, timeout=9000)
         if rc != 0 or not os.path.exists(out3):
             raise vlib.Infra("C06 lz4 harness failed rc=%s:\n%s" % (rc, txt[-3000:]))
         r3 = json.load(open(out3))
